@@ -97,7 +97,11 @@ class ParametricTransform:
 
     def has_parameters(self) -> bool:
         r"""Whether this transformation has optimizable parameters."""
-        return isinstance(self.params, Parameter)
+        params = self.params
+        if isinstance(params, ParametricTransform):
+            # Linked transformation: parameters and their re-parameterization are those of the other transformation
+            return params.has_parameters()
+        return isinstance(params, Parameter)
 
     @torch.no_grad()
     def reset_parameters(self: Union[TSpatialTransform, ParametricTransform]) -> None:
